@@ -195,6 +195,8 @@ var c01Bundles = map[string]c01Bundle{
 	"full-columns":   {tag: "div", decl: "columns:2;column-gap:3px", inner: `<p>c1 c1 c1 c1 c1 c1</p><p>c2 c2 c2 c2</p><h1 style="column-span:all">span</h1><p>c3 c3 c3 c3 c3 c3 c3 c3</p><p style="break-before:column">c4</p>`, void: true},
 	"long-text":      {tag: "p", decl: "orphans:2;widows:2;text-align:justify", text: "word1 word2 word3 word4 word5 word6 word7 word8 word9 word10 word11 word12 word13 word14 word15 word16 word17 word18 word19 word20 word21 word22 word23 word24 word25 word26 word27 word28 word29 word30 word31 word32 word33 word34 word35 word36 word37 word38 word39 word40 word41 word42 word43 word44 word45 word46 word47 word48 word49 word50 word51 word52 word53 word54 word55 word56 word57 word58 word59 word60"},
 	"footnotes-many": {tag: "p", inner: `a<span style="float:footnote">note one</span> b<span style="float:footnote">note two two two two two two two two</span> c<span style="float:footnote">note three</span> d d d d d d d d d d d d d d d d`, void: true},
+	"calc-nested":    {tag: "div", decl: "--x:10px;width:calc(calc(var(--x)));margin-left:max(1px, min(var(--x), calc(2px + var(--x, 3px))))"},
+	"attr-typed":     {tag: "a", attrs: `href="x" data-n="3" data-l="2em"`, rules: `%s::before{content:attr(href url)}%s::after{content:attr(data-n integer) attr(data-l length) attr(nope string, "d")}`},
 	"var-lasso":      {tag: "div", decl: "--a:var(--b);--b:var(--c);--c:var(--b);width:var(--a,10px);--d:var(--e,var(--d));margin-left:var(--d,1px)"},
 	"floats-many":    {tag: "div", inner: `<div style="float:left;width:45%;height:25px">fl1</div><div style="float:right;width:45%;height:45px">fr1</div><p>t1 t1 t1 t1 t1 t1 t1 t1</p><div style="float:left;clear:left;width:30px">fl2 fl2 fl2 fl2 fl2 fl2</div><p style="clear:both">t2</p>`, void: true},
 	"abs-in-rel":     {tag: "div", decl: "position:relative;height:20px", inner: `<div style="position:absolute;top:100%;left:0;right:0;height:80px">abs abs abs abs abs abs</div><div style="position:absolute;inset:auto 0 0 auto;width:min-content">a2</div>`, void: true},
@@ -717,14 +719,14 @@ func c01RunMain(args []string) int {
 				Cfg  string `json:"cfg"`
 			} `json:"detail"`
 		}
-		if err := json.Unmarshal(b, &r); err != nil {
-			fmt.Println(err)
-			return 2
-		}
-		doc, cfg = r.Detail.HTML, r.Detail.Cfg
 		if strings.HasSuffix(args[0], ".html") {
 			doc = string(b)
-			cfg = "pango"
+		} else {
+			if err := json.Unmarshal(b, &r); err != nil {
+				fmt.Println(err)
+				return 2
+			}
+			doc, cfg = r.Detail.HTML, r.Detail.Cfg
 		}
 	} else if err := json.Unmarshal([]byte(args[0]), &s); err == nil {
 		doc, _ = c01HTML(&s, nil)
